@@ -2481,6 +2481,14 @@ impl<'a> Model<'a> {
         height: i32,
         value: &str,
     ) -> Result<(), String> {
+        if width < 1 || height < 1 {
+            return Err(format!(
+                "Invalid array formula size: width {width}, height {height}"
+            ));
+        }
+        if !is_valid_row(row + height - 1) || !is_valid_column_number(column + width - 1) {
+            return Err("The array formula does not fit in the sheet".to_string());
+        }
         self.prepare_cell_for_user_input(sheet, row, column)?;
         // If value starts with "'" then we force the style to be quote_prefix
         let style_index = self.get_cell_style_index(sheet, row, column)?;
